@@ -286,7 +286,9 @@ fn check(ctx: &Ctx) -> i32 {
     // the rule cube (vh::alpha): rules with the same option set are fusion candidates, rules whose
     // option sets differ in one respect must stay apart. Requests: the shared URL universe with two
     // (initiator, type) pairs per URL.
-    let cube_reqs: Vec<Req> = vh::alpha::requests(false, false).into_iter().filter(|r| (r.ty == "script" && !r.source.is_empty()) || (r.ty == "image") || r.ty == "document").collect();
+    let cube_reqs: Vec<Req> = vh::alpha::requests(false, false).into_iter().filter(|r| (r.ty == "script" && !r.source.is_empty()) || (r.ty == "image") || r.ty == "document")
+        .filter(|r| ["://ads.net/", "://a.ads.net/", "://example.com/", "://tracker.co.uk/", "://1.2.3.4/"].iter().any(|h| r.url.contains(h)))
+        .collect();
     let np = vh::alpha::CUBE_PATTERNS.len();
     let no = vh::alpha::CUBE_OPTIONS.len();
     ctx.bound("cube_requests", cube_reqs.len());
